@@ -44,7 +44,7 @@ class Cfg:
     odd_atoms = ['hello world', 'A', "it's", 'é', '[]', 'x_1', 'aB', '0', 'a.b', '']
     functors = [('f', 1), ('g', 2), ('f', 2), ('h', 3)]
     preds = [('p', 1), ('p', 2), ('q', 1), ('q', 2), ('r', 0), ('r', 1), ('s', 3), ('t', 1)]
-    ints = [0, 1, 2, 7]
+    ints = [0, 1, 2, 7, 10, 30, 100, 1050]
     max_term_depth = 2
     control = frozenset()          # subset of {'cut', ';', 'ite', '->', 'not'}
     eq_goals = True                # = and \= goals
@@ -394,6 +394,14 @@ def gen_program(src, cfg):
     for nm in libs:
         clauses.extend(LIBRARY[nm])
         preds.append((nm, LIB_ARITY[nm]))
+    if getattr(cfg, 'wide', True) and src.rare(1, 10):
+        # a wide fact table (arity 10-12): constants in most columns, a variable or two
+        n = 10 + src.n(3)
+        for _ in range(2 + src.n(3)):
+            wv = [('v', 'W0'), ('v', 'W1')]
+            row = tuple(src.pick(wv) if src.rare(1, 8) else (('a', src.pick(cfg.atoms)) if src.n(2) else ('i', src.pick(cfg.ints))) for _ in range(n))
+            clauses.append((('f', 'wide', row), ('true',)))
+        preds.append(('wide', n))
     return preds, clauses
 
 
@@ -440,6 +448,7 @@ _SYM = set('=\\<>-+:;,.|/!')
 _ALNUM = set('abcdefghijklmnopqrstuvwxyzABCDEFGHIJKLMNOPQRSTUVWXYZ0123456789_')
 VAR_STYLES = [lambda i: 'V%d' % i, lambda i: 'XYZUVW'[i % 6] + ('' if i < 6 else str(i)), lambda i: '_v%d' % i,
               lambda i: 'Var_%d' % i, lambda i: '_G%d' % i, lambda i: 'ABCDE'[i % 5] * (1 + i // 5),
+              lambda i: '_%d' % (i + 1),
               lambda i: (['True', 'None', 'ATOM_NIL', 'False', '__debug__', 'V_True', 'L1', 'Arg1', 'DoBreak', 'X1', '__builtins__', 'V_'] + ['W%d' % j for j in range(40)])[i]]
 COMMENTS = ['% c\n', '%\n', "% it's ( [ . :- \n", '% é "\n']
 
